@@ -19,6 +19,14 @@ WITNESSES = [
     ("MC_Dataset", "MC_Dataset_C15T", "W_DifferentTGrid", "inputs with different -T grids are part of the universe (C15)"),
     ("MC_Dataset", "MC_Dataset_C14", "W_Shift", "ShiftEquiv: -c X equals X as an extra input (C14)"),
     ("MC_Dataset", "MC_Dataset_C01ClimNoObs", "W_ObsBorrowed", "an input without observations borrows them (C01)"),
+    ("MC_Dataset", "MC_Dataset_C02Order", "W_UnsortedTimes", "an input lists its times out of order (C02)"),
+    ("MC_Dataset", "MC_Dataset_C02Order", "W_DifferentOrders", "two inputs list the same locations in different orders (C02)"),
+    ("MC_Dataset", "MC_Dataset_C02Close", "W_RelativelyClose", "verified times one hour apart: relatively close as numbers (C02)"),
+    ("MC_Dataset", "MC_Dataset_C03K1", "W_EmptySelection", "a selection that leaves nothing (C03)"),
+    ("MC_Dataset", "MC_Dataset_C03K1", "W_StrictSubset", "a selection that leaves a strict, non-empty subset (C03)"),
+    ("MC_Dataset", "MC_Dataset_C03K1", "W_ObsRangeMasks", "-obsrange discards a case of the SECOND input (C03)"),
+    ("MC_TextFormat", "MC_TextFormat_quick", "W_NoLeadingDigit", "column names whose number has no leading digit (C09)"),
+    ("MC_TextFormat", "MC_TextFormat_quick", "W_MixedOrderThresholds", "threshold columns in an order that is not ascending (C09, C10)"),
     ("MC_Aggregators", "MC_Aggregators_win", "W_IncreasingGrid", "WindowLemmas: contiguous trailing windows on increasing grids (C15)"),
     ("MC_Aggregators", "MC_Aggregators_win", "W_PermutedGrid", "grids listed in permuted file order (C15, C02)"),
     ("MC_Aggregators", "MC_Aggregators_vec", "W_NoMissing", "OrderLemmas on vectors without missing values (C15)"),
